@@ -91,6 +91,9 @@ class Mon:
         self._hit = False
         self._sample = None
         self.max = {}
+        self._known = None
+        self.known_seen = {}
+        self.data = {}      # free-form per-shard data handed to the property's merge() hook
 
     # -- case bracket -----------------------------------------------------
     def begin_case(self, case):
@@ -142,6 +145,19 @@ class Mon:
             self._sample = sample
 
     def fail(self, kind, msg, **detail):
+        # known findings are recognised here, per violation, by mechanism; they never
+        # use up the per-kind quota of violations kept in full
+        from . import findings
+        if self._known is None:
+            self._known = findings.load()
+        v = {"property": self.prop_id, "kind": kind, "msg": msg, "detail": jsonable(detail), "case": None}
+        fid = findings.classify(self.prop_id, v, self._known)
+        if fid:
+            self.counters["known:" + fid] += 1
+            if fid not in self.known_seen:
+                v["case"] = jsonable(self.case)
+                self.known_seen[fid] = v
+            return
         self.n_violations += 1
         self.counters["violations:" + kind] += 1
         if self.counters["violations:" + kind] <= 2 and len(self.violations) < MAX_VIOLATIONS_KEPT:
@@ -272,6 +288,9 @@ def worker_main(argv):
         "sigs": sorted(mon.sigs),
         "errors": mon.errors,
         "lines": probe.result(),
+        "data": mon.data,
+        "known_seen": mon.known_seen,
+        "hashseed": os.environ.get("PYTHONHASHSEED"),
         "wall_s": time.time() - t0,
     }
     with open(out, "w") as f:
@@ -396,6 +415,9 @@ def main(argv):
     # classify against the committed known findings
     known = findings.load()
     seen_known = {}
+    for r in results:
+        for fid, v in (r.get("known_seen") or {}).items():
+            seen_known.setdefault(fid, v)
     unknown = []
     for v in violations:
         name = findings.classify(prop_id, v, known)
